@@ -14,6 +14,7 @@
 //   ddi;...    DipoleDipoleInteraction operator: symmetric, blocks = Thole tensor, multiply = dense
 #include <array>
 #include <cfloat>
+#include <cstring>
 #include <type_traits>
 
 #include "bsx.h"
@@ -939,10 +940,149 @@ static bsx::Outcome run_prov(const ProvCase &c) {
   return o;
 }
 
+// ------------------------------------------------------------------ induced-dipole state in the STATIC families
+// PolarSite::getDipole() is virtual and returns static + induced dipole; Q() is the static part only.  Every STATIC
+// quantity (CalcStaticEnergy_site both orders, CalcStaticEnergy on segments, ApplyStaticField energy and field term)
+// must be independent of the induced dipoles either site happens to carry (after a polarisation solve, a restart, a
+// setInduced_Dipole), while the induced quantities follow their own definitions.
+struct IndCase { SiteD A, B; double ia[3] = {0, 0, 0}, ib[3] = {0, 0, 0}; int via = 0; };
+static std::string indstr(const IndCase &c) {
+  return "indst;" + sitestr(c.A, "a") + ";" + sitestr(c.B, "b") + ";ia=" + arr(c.ia, 3) + ";ib=" + arr(c.ib, 3) + ";via=" + std::to_string(c.via);
+}
+static PolarSite with_induced(const SiteD &d, Index id, const V3 &mu, int via) {
+  PolarSite s = mkpolar(d, id, 2.0 * M3::Identity());
+  s.setInduced_Dipole(mu);
+  if (via == 0) return s;
+  // the way a restart brings the induced dipole back: PolarSite::data -> PolarSite(data)
+  PolarSite::data dd;
+  s.WriteData(dd);
+  dd.element = strdup(s.getElement().c_str());  // ReadData frees it
+  return PolarSite(dd);
+}
+static bsx::Outcome run_indst(const IndCase &c) {
+  bsx::Outcome o;
+  const V3 muA(c.ia[0], c.ia[1], c.ia[2]), muB(c.ib[0], c.ib[1], c.ib[2]);
+  const std::string pol = std::string(muA.norm() > 0 ? (muB.norm() > 0 ? "bothpol" : "Apol") : (muB.norm() > 0 ? "Bpol" : "unpol")) + "-r" + std::to_string(c.A.rank) + std::to_string(c.B.rank);
+  auto failwith = [&](const std::string &what_key, const std::string &what) {
+    o.ok = false; o.key = "indst-" + what_key + "-" + pol;
+    o.what = what + "  [A: " + sitehuman(c.A) + " induced (" + bsx::fmt(muA(0)) + "," + bsx::fmt(muA(1)) + "," + bsx::fmt(muA(2)) + "); B: " + sitehuman(c.B) + " induced (" + bsx::fmt(muB(0)) + "," +
+             bsx::fmt(muB(1)) + "," + bsx::fmt(muB(2)) + "); induced dipoles set through " + (c.via ? "PolarSite::data round trip" : "setInduced_Dipole") + "]";
+    return o;
+  };
+  try {
+    eeInteractor ee;
+    const double R = (posof(c.B) - posof(c.A)).norm();
+    const double sc = escale(c.A, c.B, R) + 1e-300;
+    // references: the same pair without any induced dipole
+    StaticSite sa = mkstatic(c.A, 0), sb = mkstatic(c.B, 1);
+    const double Eref = ee.CalcStaticEnergy_site(sa, sb);
+    PolarSite pa = with_induced(c.A, 0, muA, c.via), pb = with_induced(c.B, 1, muB, c.via);
+    if ((pa.Induced_Dipole() - muA).norm() != 0 || (pb.Induced_Dipole() - muB).norm() != 0) return failwith("harness-induced-not-set", "induced dipole not stored as given");
+    if ((pa.getDipole() - (pa.Q().segment<3>(1) + muA)).norm() > 1e-15 * (1 + muA.norm())) return failwith("getDipole", "getDipole() is not static + induced dipole");
+    // (1) static pair energy, every argument combination, both orders
+    struct Ev { const char *name; double e; };
+    const Ev evs[] = {{"E(A,B)", ee.CalcStaticEnergy_site(pa, pb)}, {"E(B,A)", ee.CalcStaticEnergy_site(pb, pa)}, {"E(A,staticB)", ee.CalcStaticEnergy_site(pa, sb)},
+                      {"E(staticB,A)", ee.CalcStaticEnergy_site(sb, pa)}, {"E(staticA,B)", ee.CalcStaticEnergy_site(sa, pb)}, {"E(B,staticA)", ee.CalcStaticEnergy_site(pb, sa)}};
+    for (const Ev &e : evs)
+      if (!(std::fabs(e.e - Eref) <= 1e-13 * sc))
+        return failwith("static-energy", std::string(e.name) + " = " + bsx::fmt(e.e) + " with the induced dipoles present, " + bsx::fmt(Eref) + " for the same static moments without them");
+    // (2) absolute: point-charge clusters realising the STATIC moments
+    {
+      long double val, err;
+      cluster_limit(c.A, c.B, R, val, err);
+      if (fabsl((long double)evs[0].e - val) > 10 * err + 1e-9L * sc)
+        return failwith("cluster", "E = " + bsx::fmt(evs[0].e) + " but point-charge clusters realising the static moments converge to " + bsx::fmt((double)val));
+    }
+    // (3) segment level
+    PolarSegment PA("A", 0), PB("B", 1);
+    StaticSegment SA("A", 0), SB("B", 1);
+    PA.push_back(pa); PB.push_back(pb); SA.push_back(sa); SB.push_back(sb);
+    const Ev segs[] = {{"CalcStaticEnergy(polarA,polarB)", ee.CalcStaticEnergy(PA, PB)}, {"CalcStaticEnergy(polarB,polarA)", ee.CalcStaticEnergy(PB, PA)},
+                       {"CalcStaticEnergy(staticA,polarB)", ee.CalcStaticEnergy(SA, PB)}, {"CalcStaticEnergy(polarA,staticB)", ee.CalcStaticEnergy(PA, SB)}};
+    for (const Ev &e : segs)
+      if (!(std::fabs(e.e - Eref) <= 1e-13 * sc))
+        return failwith("static-energy-segment", std::string(e.name) + " = " + bsx::fmt(e.e) + " with the induced dipoles present, " + bsx::fmt(Eref) + " without");
+    // (4) static field term on B from A (and on A from B): reference = induced dipoles cleared; absolute = dE/dmu by central differences
+    V3 VrefB, VrefA;
+    {
+      PolarSegment ca("A", 0), cb("B", 1);
+      ca.push_back(mkpolar(c.A, 0, 2.0 * M3::Identity())); cb.push_back(mkpolar(c.B, 1, 2.0 * M3::Identity()));
+      ee.ApplyStaticField<PolarSegment, Estatic::V>(ca, cb);
+      VrefB = cb[0].V();
+      ee.ApplyStaticField<PolarSegment, Estatic::V>(cb, ca);
+      VrefA = ca[0].V();
+      V3 dE;
+      for (int k = 0; k < 3; k++) {
+        SiteD tp = c.B, tm = c.B;
+        tp.rank = tm.rank = std::max(1, c.B.rank);
+        tp.Q[1 + k] += 0.5; tm.Q[1 + k] -= 0.5;
+        dE(k) = ee.CalcStaticEnergy_site(sa, mkstatic(tp, 1)) - ee.CalcStaticEnergy_site(sa, mkstatic(tm, 1));
+      }
+      SiteD unitd = c.B;
+      for (int k = 1; k < 4; k++) unitd.Q[k] = 1.0;
+      if (!((VrefB - dE).norm() <= 1e-12 * (escale(c.A, unitd, R) + 1e-300) + 8 * DBL_EPSILON))
+        return failwith("harness-reference-field", "reference field term is not dE/dmu");
+    }
+    SiteD unitA = c.A, unitB = c.B;
+    for (int k = 1; k < 4; k++) { unitA.Q[k] = 1.0; unitB.Q[k] = 1.0; }
+    const double fscB = escale(c.A, unitB, R) + 1e-300, fscA = escale(unitA, c.B, R) + 1e-300;
+    for (int variant = 0; variant < 4; variant++) {
+      const bool noE = variant & 1, rev = variant & 2;  // rev: field of B on A
+      PolarSegment src("S", 0), tgt("T", 1);
+      src.push_back(rev ? pb : pa);
+      tgt.push_back(rev ? pa : pb);
+      tgt[0].Reset();
+      double e = noE ? ee.ApplyStaticField<PolarSegment, Estatic::noE_V>(src, tgt) : ee.ApplyStaticField<PolarSegment, Estatic::V>(src, tgt);
+      V3 got = noE ? tgt[0].V_noE() : tgt[0].V();
+      const V3 &want = rev ? VrefA : VrefB;
+      if (!((got - want).norm() <= 1e-12 * (rev ? fscA : fscB)))
+        return failwith(std::string("static-field-") + (rev ? "on-A" : "on-B"), "ApplyStaticField accumulates (" + bsx::fmt(got(0)) + "," + bsx::fmt(got(1)) + "," + bsx::fmt(got(2)) +
+                                                                                     ") with the induced dipoles present, (" + bsx::fmt(want(0)) + "," + bsx::fmt(want(1)) + "," + bsx::fmt(want(2)) + ") = dE/dmu without");
+      if (!(std::fabs(e - Eref) <= 1e-12 * sc)) return failwith("static-field-energy", "ApplyStaticField returns " + bsx::fmt(e) + ", static pair energy " + bsx::fmt(Eref));
+    }
+    // (5) induced quantities follow their own definitions
+    {
+      M3 T = ee.FillTholeInteraction(pa, pb);
+      const double u = 1 / (R * R * R);
+      PolarSegment a2("A", 0), b2("B", 1);
+      a2.push_back(pa); b2.push_back(pb);
+      b2[0].Reset();
+      ee.ApplyInducedField<Estatic::noE_V>(a2, b2);
+      if (!((b2[0].V_noE() - T.transpose() * muA).norm() <= 1e-12 * (muA.norm() + 1e-300) * u))
+        return failwith("induced-field", "ApplyInducedField term on B is not T^T mu_A");
+      eeInteractor::E_terms t = ee.CalcPolarEnergy(PA, PB);
+      double wii = muA.dot(T * muB);
+      if (!(std::fabs(t.E_indu_indu() - wii) <= 1e-12 * (muA.norm() * muB.norm() + 1e-300) * u))
+        return failwith("E-indu-indu", "E_indu_indu = " + bsx::fmt(t.E_indu_indu()) + " but mu_A^T T mu_B = " + bsx::fmt(wii));
+      double wis = muA.dot(VrefA) + muB.dot(VrefB);  // induced dipole x static field term of the OTHER site's static moments
+      if (!(std::fabs(t.E_indu_stat() - wis) <= 1e-12 * (muA.norm() * fscA + muB.norm() * fscB + 1e-300)))
+        return failwith("E-indu-stat", "E_indu_stat = " + bsx::fmt(t.E_indu_stat()) + " but mu_A . V_static(B->A) + mu_B . V_static(A->B) = " + bsx::fmt(wis));
+      double wis1 = muA.dot(VrefA);
+      double eis1 = ee.CalcPolarEnergy(PA, SB).E_indu_stat();
+      if (!(std::fabs(eis1 - wis1) <= 1e-12 * (muA.norm() * fscA + 1e-300)))
+        return failwith("E-indu-stat-static-partner", "E_indu_stat(polar A, static B) = " + bsx::fmt(eis1) + " but mu_A . V_static(B->A) = " + bsx::fmt(wis1));
+    }
+    char b[96];
+    snprintf(b, sizeof b, "indst|%s|%.5e", pol.c_str(), Eref);
+    o.cls = std::fabs(Eref) < 1e-14 * sc ? bsx::fnv("indst|zero|" + pol) : bsx::fnv(b);
+    o.extra = "E_static=" + bsx::fmt(Eref) + " independent of the induced dipoles";
+  } catch (const std::exception &e) {
+    return failwith("throws", std::string("exception: ") + e.what());
+  }
+  return o;
+}
+
 // ------------------------------------------------------------------ --case
 static bsx::Outcome run_case(const std::string &cas) {
   auto m = bsx::kvs(cas);
   if (cas.rfind("pair;", 0) == 0) return run_pair(parsesite(m, "a"), parsesite(m, "b"));
+  if (cas.rfind("indst;", 0) == 0) {
+    IndCase c;
+    c.A = parsesite(m, "a"); c.B = parsesite(m, "b");
+    parr(m["ia"], c.ia, 3); parr(m["ib"], c.ib, 3);
+    c.via = atoi(m["via"].c_str());
+    return run_indst(c);
+  }
   if (cas.rfind("prov;", 0) == 0) {
     ProvCase c;
     c.k1 = atoi(m["k1"].c_str()); c.k2 = atoi(m["k2"].c_str()); c.el = atoi(m["el"].c_str()); c.dir = atoi(m["dir"].c_str());
@@ -1109,6 +1249,47 @@ int main(int argc, char **argv) {
         if (shown < 2 && piv >= 3 && rot > 0 && gi % 97 == 13) { R.sample(rotstr(c) + " (pivot passed as " + pivname(piv) + ") -> " + o.extra); shown++; }
       }
   }
+  // induced-dipole state x static families
+  {
+    long long shown = 0, n = 0;
+    const double IND[4][3] = {{0, 0, 0}, {0.2, -0.4, 0.7}, {-3.0, 1.0, 0.5}, {0, 0, 1e-3}};
+    std::vector<double> IR = thorough ? std::vector<double>{0.5, 1, 3, 10, 100} : std::vector<double>{1, 3, 10};
+    size_t ndir = thorough ? dirs.size() : std::min<size_t>(dirs.size(), 32);
+    for (size_t di = 0; di < ndir; di += (thorough ? 1 : 3))
+      for (double Rr : IR) {
+        std::vector<std::pair<SiteD, SiteD>> prs;
+        SiteD A0, B0;
+        for (int k = 0; k < 3; k++) { A0.p[k] = PA[k]; B0.p[k] = PA[k] + Rr * dirs[di](k); }
+        for (int mv = 0; mv < (thorough ? 3 : 2); mv++)
+          for (int ra = 0; ra < 3; ra++) for (int rb = 0; rb < 3; rb++) {
+            SiteD A = A0, B = B0;
+            mixvec(mv + 2, 0, A.Q); mixvec(mv + 2, 1, B.Q);
+            A.rank = ra; B.rank = rb;
+            for (int i = 0; i < 9; i++) { if (comp_rank(i) > ra) A.Q[i] = 0; if (comp_rank(i) > rb) B.Q[i] = 0; }
+            prs.push_back({A, B});
+          }
+        if (di % 9 == 0 || thorough)  // the unit-component basis
+          for (int i = 0; i < 9; i++) for (int j = 0; j < 9; j++) {
+            SiteD A = A0, B = B0;
+            A.Q[i] = 1; B.Q[j] = 1; A.rank = comp_rank(i); B.rank = comp_rank(j);
+            prs.push_back({A, B});
+          }
+        for (auto &pr : prs)
+          for (int ia = 0; ia < 4; ia++) for (int ib = 0; ib < 4; ib++) {
+            n++;
+            if (!a.mine(gi++)) continue;
+            IndCase c;
+            c.A = pr.first; c.B = pr.second;
+            for (int k = 0; k < 3; k++) { c.ia[k] = IND[ia][k]; c.ib[k] = IND[ib][k]; }
+            c.via = (int)(n % 2);
+            bsx::Outcome o = run_indst(c);
+            R.eval(); R.counters["indst_cases"]++;
+            if (!o.ok) { R.fail(o.key, o.what, indstr(c)); continue; }
+            if (o.cls) R.cls(o.cls);
+            if (shown < 1 && ia == 2 && ib == 1 && c.A.rank == 2 && c.B.rank == 1) { R.sample("indst A: " + sitehuman(c.A) + " induced (-3,1,0.5); B: " + sitehuman(c.B) + " induced (0.2,-0.4,0.7) -> " + o.extra); shown++; }
+          }
+      }
+  }
   // provenance of the polarisability x provenance x element pair x separation x direction x damping
   {
     long long shown = 0;
@@ -1162,7 +1343,12 @@ int main(int argc, char **argv) {
            "polarisability explicitly (damping length factor, inverse polarisability, Thole tensor, ApplyInducedField, E_indu_indu, E_indu_stat, "
            "DipoleDipoleInteraction entries and multiply, all to 1e-11); absolute: symmetric, -> undamped and traceless where a u^3 >= 100 (u from the "
            "reported principal polarisabilities), weaker than undamped where a u^3 <= 10, not identically zero, induced field = d E_indu_indu / d mu = "
-           "T^T mu. distinct_nontrivial = distinct (rank block, sign, binary "
+           "T^T mu. (indst) induced-dipole state in the STATIC families: each PolarSite of a pair carries induced dipole 0 / (0.2,-0.4,0.7) / (-3,1,0.5) / (0,0,1e-3) "
+           "(4 x 4, set by setInduced_Dipole or restored through PolarSite::data), mixed moment vectors truncated to all 3x3 rank combinations and the 9x9 unit "
+           "basis, directions x R: CalcStaticEnergy_site in all 6 polar/static argument combinations and both orders, CalcStaticEnergy on segments, "
+           "ApplyStaticField field term (both directions, V and noE_V) and energy return are equal to the same pair without induced dipoles and to the "
+           "absolute references (point-charge clusters of the static moments, dE/dmu); ApplyInducedField = T^T mu_A, E_indu_indu = mu_A^T T mu_B, "
+           "E_indu_stat = mu_A.V_static(B->A) + mu_B.V_static(A->B). distinct_nontrivial = distinct (rank block, sign, binary "
            "exponent) of non-zero energies + distinct field vectors + distinct Thole deviations";
   R.assumptions = {"quadrupole moments follow Stone's convention (Q20 = Theta_zz, Theta_ab = sum q (3/2 r_a r_b - 1/2 r^2 delta_ab)), the one the .mps format documents",
                    "the field term is compared with +dE/dmu as the statement says ('equals the derivative'); it is the potential gradient, i.e. minus the physical field",
